@@ -352,7 +352,7 @@ _EXTRA10 = {
  "C05": " Tenth round: (R-MEMBER-1); (R-TMPKIND-2) the kind an alias is registered with agrees with the container its view came from — a regression of an earlier repair found and repaired (UPDATE / DELETE of STDIN).",
  "C06": " Tenth round: (R-UTF-2) the small-code-point fast path of a hand-written character-class predicate agrees with the standard predicate it bypasses; (R-QUANT-1).",
  "C07": " Tenth round: R-IDENT-1 registered (the computed column an ORDER BY item sorts by is found by the exact identifier of the expression).",
- "C09": " Tenth round: (R-LOCK-21) the lock pass of a data-changing statement locks every table of its list on every path; (R-LOCK-22) the matcher of control-file names agrees with the names the creators build.",
+ "C09": " Tenth round: (R-LOCK-21) the lock pass of a data-changing statement locks every table of its list on every path; (R-LOCK-22) the matcher of control-file names agrees with the names the creators build. After it: (R-LOCK-23) every form of operand of a set operation receives the FOR UPDATE flag of the query (flag parameters by fixpoint from LoadView) — genuine defect repaired: a parenthesized operand stayed unlocked.",
  "C10": " Tenth round: R-FMT-12 / R-FMT-4 registered (the bytes that close a committed file are encoded with the file's own encoding).",
  "C11": " Tenth round: (R-CLEAN-12) the reference to a control file is cleared only after the file was removed or renamed successfully.",
  "C12": " Tenth round: (R-CPL-1); R-SRT-12 registered.",
